@@ -3,6 +3,7 @@ package interp
 import (
 	"fmt"
 	"go/types"
+	"os"
 	"runtime"
 	"sort"
 	"strings"
@@ -38,34 +39,36 @@ type PathResult struct {
 }
 
 type Report struct {
-	Harness      string
-	Paths        int
-	Outcomes     map[string]int
-	Violations   []*Violation
-	Samples      []PathResult
-	Reached      map[string]int
-	Notes        map[string]int
-	Msgs         map[string]int // abort reasons
-	Decisions    int
-	SolverCalls  int
-	ModelHits    int
-	Asserts      int
-	AssertSyn    int
-	AssertQuery  int
-	Unknowns     int
-	SolverErrors int
-	Steps        int64
-	SolverTime   time.Duration
-	Wall         time.Duration
-	Funcs        map[string]bool
-	Truncated    bool
-	MaxTraceLen  int
+	Harness        string
+	Paths          int
+	Outcomes       map[string]int
+	Violations     []*Violation
+	Samples        []PathResult
+	Reached        map[string]int
+	Notes          map[string]int
+	Msgs           map[string]int // abort reasons
+	Decisions      int
+	SolverCalls    int
+	ModelHits      int
+	Asserts        int
+	AssertSyn      int
+	AssertQuery    int
+	Unknowns       int
+	SolverErrors   int
+	Steps          int64
+	SolverTime     time.Duration
+	Wall           time.Duration
+	Funcs          map[string]bool
+	Truncated      bool
+	MaxTraceLen    int
+	ViolationCount int
+	perLabel       map[string]int
 }
 
 // RunPath executes one path of harness function fn under prefix.
-func (w *World) RunPath(fn *ssa.Function, s *smt.Solver, prefix []int32, maxSteps int64) (res PathResult, p *Path) {
+func (w *World) RunPath(fn *ssa.Function, s *smt.Solver, pp PendingPath, maxSteps int64) (res PathResult, p *Path) {
 	s.Reset()
-	p = NewPath(s, prefix, maxSteps)
+	p = NewPath(s, pp.Prefix, maxSteps, pp.Model)
 	i := &interpreter{
 		prog:       w.Prog,
 		globals:    make(map[*ssa.Global]*value),
@@ -158,7 +161,7 @@ func (w *World) Explore(name string, opt Options) (*Report, error) {
 
 	var mu sync.Mutex
 	cond := sync.NewCond(&mu)
-	queue := [][]int32{nil}
+	queue := []PendingPath{{}}
 	active := 0
 	stop := false
 
@@ -173,6 +176,12 @@ func (w *World) Explore(name string, opt Options) (*Report, error) {
 			return
 		}
 		defer s.Close()
+		if lf := os.Getenv("ZSYM_SMTLOG"); lf != "" {
+			if f, err := os.Create(lf); err == nil {
+				s.Log = f
+				defer f.Close()
+			}
+		}
 		for {
 			mu.Lock()
 			for len(queue) == 0 && active > 0 && !stop {
@@ -222,7 +231,12 @@ func (w *World) Explore(name string, opt Options) (*Report, error) {
 				rep.MaxTraceLen = len(res.Trace)
 			}
 			if res.Violation != nil {
-				if len(rep.Violations) < 50 {
+				rep.ViolationCount++
+				if rep.perLabel == nil {
+					rep.perLabel = map[string]int{}
+				}
+				rep.perLabel[res.Violation.Label]++
+				if rep.perLabel[res.Violation.Label] <= 4 && len(rep.Violations) < 200 {
 					rep.Violations = append(rep.Violations, res.Violation)
 				}
 				if opt.StopOnViolation {
